@@ -15,7 +15,8 @@ ID = "C12"
 BUDGET = {"quick": 1500, "thorough": 50000}
 REQUIRED = ["call:assemble", "call:clear", "call:backport", "call:delete", "call:move", "call:modify_patch", "call:merge_patches",
             "call:set_default_patch", "call:write", "judged:write-vs-fresh", "judged:write-twice", "judged:backport-points",
-            "judged:backport-after-delete", "judged:modify-then-clear", "mode:propagate", "mode:all-chopped"]
+            "judged:backport-after-delete", "judged:modify-then-clear", "mode:propagate", "mode:all-chopped",
+            "judged:far-from-origin-model-moved-and-backported"]
 MIN_KEYS = 100
 RULE = (
     "histories of <= 10 calls over {add, delete, assemble, move vertices, backport, clear, modify_patch, set_default_patch, "
@@ -59,9 +60,12 @@ def gen_case(ctx):
                     blk["chops"].append([d, dict(kw)])
     asm = lattice.realise(base, None, [rng.randrange(24) for _ in base["blocks"]])
     ops = []
+    # geo-referenced model: coordinates of a few thousand units, vertex moves of a centimetre (far below 1e-5 of the coordinates)
+    far = [rng.choice([-1, 1]) * rng.uniform(2000, 9000) for _ in range(3)] if rng.random() < 0.2 else None
     for blk in asm["blocks"]:
         patches = {s: rng.choice(["walls", "inlet", "outlet"]) for s in hexconv.SIDE_NAMES if rng.random() < 0.3}
-        ops.append({"pts": blk["pts"], "nodes": blk["nodes"], "chops": blk["chops"], "patches": patches})
+        pts = blk["pts"] if far is None else [[x + o for x, o in zip(p, far)] for p in blk["pts"]]
+        ops.append({"pts": pts, "nodes": blk["nodes"], "chops": blk["chops"], "patches": patches})
     # a possible merged pair
     pair = None
     for x, y in itertools.combinations(range(len(ops)), 2):
@@ -118,7 +122,8 @@ def gen_case(ctx):
         elif c == "move":
             live_nodes = sorted({nd for i in live for nd in ops[i]["nodes"]})
             ks = rng.sample(live_nodes, min(len(live_nodes), rng.randint(1, 3)))
-            hist.append(["move", [[k, [rng.uniform(-0.08, 0.08) for _ in range(3)]] for k in ks]])
+            amp = 0.08 if far is None else 0.015
+            hist.append(["move", [[k, [rng.uniform(-amp, amp) for _ in range(3)]] for k in ks]])
             moved_since_assembly = True
         elif c == "backport":
             hist.append(["backport"])
@@ -139,7 +144,7 @@ def gen_case(ctx):
             hist.append(["write", rng.random() < 0.4])
     hist.append(["write", rng.random() < 0.5])
     del nodes
-    return {"ops": ops, "history": hist, "propagate": propagate}
+    return {"ops": ops, "history": hist, "propagate": propagate, "far": far is not None}
 
 
 def make_op(cb, o, pts):
@@ -325,6 +330,8 @@ def run_case(ctx, case):
             ctx.violation(f"call-raised:{name}:{type(exc).__name__}", f"history {case['history'][:step+1]}: {exc!r}")
             return
     ctx.count("mode:propagate" if case.get("propagate") else "mode:all-chopped")
+    if case.get("far") and "backport" in names and "move" in names:
+        ctx.count("judged:far-from-origin-model-moved-and-backported")
     ctx.key([names, bool(case.get("propagate"))], nontrivial=lifecycle >= 2)
     ctx.sample({"n_ops": n, "history": case["history"]})
 
